@@ -11,7 +11,7 @@
     getlist          qmail-pop3d.c getlist   (heap drained into m[0..numm))
     getlns           getln.c iterated over one file: (line without LF, match flag)
     blastLoop/blast  qmail-pop3d.c blast
-    msgno            qmail-pop3d.c msgno
+    msgno            qmail-pop3d.c msgno (with or without the test of what follows the digits)
     exec             the handler table pop3commands[] and the handlers pop3_*
     parseLine        commands.c: one command line -> (verb, argument)
     feed/run         commands.c byte loop over descriptor 0, and main()
@@ -204,9 +204,20 @@ inductive MsgNo
   | ok (i : Nat)
   | err (reply : Bytes)
 
+/-- msgno(): is the digit run followed by something other than the end of the argument or a space?
+(`arg[len] && arg[len] != ' '`; the argument is a C string, it holds no NUL.) The source before the
+repair ignored what follows the digits; which one the current source does is read from it by the
+translator (`Gen.Pop3Tab.msgnoStrict`). -/
+def junkAfterWith (strict : Bool) (arg : Bytes) (pos : Nat) : Bool :=
+  strict && (match arg.drop pos with
+    | [] => false
+    | c :: _ => c != SP)
+
+def junkAfter (arg : Bytes) (pos : Nat) : Bool := junkAfterWith Gen.Pop3Tab.msgnoStrict arg pos
+
 def msgno (s : Sess) (arg : Bytes) : MsgNo :=
   let (u, pos) := scanUlong arg
-  if pos = 0 then .err (errLine "syntax error")
+  if pos = 0 ∨ junkAfter arg pos = true then .err (errLine "syntax error")
   else if u = 0 then .err (errLine "messages are counted from 1")
   else if u - 1 ≥ s.msgs.length ∨ u - 1 ≥ INT_MAX then .err (errLine "not that many messages")
   else match s.msgs[u - 1]? with
@@ -246,6 +257,13 @@ def topLimit (arg : Bytes) : Nat :=
   let a2 := (arg.drop (scanUlong arg).2).dropWhile (· = SP)
   if (scanUlong a2).2 ≠ 0 then ((scanUlong a2).1 + 1) % U64 else 0
 
+/-- the limit dotop() hands to blast(): RETR (flagtop = 0) never limits; TOP as `topLimit`. Before the
+repair RETR shared pop3_top() with TOP (`Gen.Pop3Tab.retrWhole = false`). -/
+def limitWith (retrWhole : Bool) (verb arg : Bytes) : Nat :=
+  if retrWhole = true ∧ verbIs vTop verb = false then 0 else topLimit arg
+
+def limitFor (verb arg : Bytes) : Nat := limitWith Gen.Pop3Tab.retrWhole verb arg
+
 /-- one dispatched command: new state, bytes written to descriptor 1, exit code if the process ends -/
 def exec (s : Sess) (verb arg : Bytes) : Sess × Bytes × Option Nat :=
   if verbIs vQuit verb then
@@ -274,7 +292,7 @@ def exec (s : Sess) (verb arg : Bytes) : Sess × Bytes × Option Nat :=
       | none => (s, [], none)
       | some m => match fsFind s.fs m.fn with
         | none => (s, errLine "unable to open that message", none)
-        | some f => (s, okLine ++ blast (topLimit arg) f.data, none)
+        | some f => (s, okLine ++ blast (limitFor verb arg) f.data, none)
   else if verbIs vRset verb then
     ({ s with msgs := s.msgs.map (fun m => { m with del := false }), last := 0 }, okLine, none)
   else if verbIs vLast verb then
